@@ -209,6 +209,9 @@ class C14(Check):
                 if rng.random() < (0.75 if r == rnames[0] else 0.5):
                     files.append({'rel': rel, 'kind': rng.choice(['text', 'text', 'bin', 'empty', 'big']),
                                   'mtime_off': -rng.choice([0, 1, 37, 3600, 86400 * 3]) - rng.choice([0, 0, 0.25, 0.5, 0.75])})
+                    if rng.random() < 0.12:
+                        # boundary values: exactly the epoch, one second either side, a fraction that rounds to it
+                        files[-1]['mtime_off'] = rng.choice([0.0, 0.0, 1.0, -1.0, 0.4, -0.4, 86400.0]) - EPOCH
                     if rng.random() < 0.08:
                         # a time datetime cannot represent (year > 9999) or before the epoch: unusual but legal on disk
                         files[-1]['mtime_off'] = rng.choice([2.6e11 - 1.7e9, 2.6e11 - 1.7e9, -1.8e9 - 1.7e9, -86400.0 * 365 * 400])
